@@ -1215,8 +1215,6 @@ def read_ms5_xsf(path, prefix, qc, corr, sep="r", **kwargs):
                 names.append(prefix)
     if 'idl' in kwargs:
         expected_idl = kwargs.get('idl')
-    names = sorted(names)
-    files = sorted(files)
 
     cnfgs = []
     realsamples = []
